@@ -7,6 +7,7 @@ from .rules.truthy import rule_truthy
 from .rules.purity import rule_pure, rule_args, rule_global, rule_memo
 from .rules.token import rule_token
 from .rules.graph import rule_keys, rule_order, rule_cover
+from .rules import misc as M
 
 PROPERTIES = {
     "C01": {
@@ -53,6 +54,75 @@ PROPERTIES = {
                       "Completeness of up-front validation and 'auto works wherever map-reduce does' are not decided.",
         "explanation": "R-RAISE, R-DEFASSIGN, R-REGKEY, R-KWSIG, R-ASSERT",
     },
+    "C02": {
+        "rules": [M.rule_plan, rule_algebra, rule_cover],
+        "technique": "CFG must-pass-through (finalizer), resolved embeddings of combine/aggregate callables, access-path agreement",
+        "level_text": "Static, all-paths: every plan funnels into the one finalizer on every path, only the two sibling combine algorithms "
+                      "are embedded and both draw their operator from the same blueprint slot family, intermediates are re-indexed with the "
+                      "blueprint's intermediate fills, the cohort re-indexing is tied to the combine kind by the same boolean, and a cohort's "
+                      "block set covers every member label. Equality of chunked and eager values is not decided.",
+        "explanation": "R-PLAN, R-ALGEBRA, R-COVER",
+    },
+    "C06": {
+        "rules": [rule_algebra, rule_order, rule_stable, rule_keys],
+        "technique": "monoid-table arg rows; taint of block order through unordered containers; stable-sort sites; key injectivity",
+        "level_text": "Static, all-paths: the four arg-reduction blueprints pair value/index kernels with matching polarity, NaN discipline, "
+                      "fills, finalizer and index preprocessing; block ids reach block selections in positional order on every path; the "
+                      "group sort is stable. Global-index arithmetic and tie-breaking are not decided.",
+        "explanation": "R-ALGEBRA (arg rows), R-ORDER, R-STABLE, R-KEYS",
+    },
+    "C07": {
+        "rules": [M.rule_sentinel_ravel],
+        "technique": "CFG must-pass-through of a masked sentinel restore",
+        "level_text": "Static, all-paths: after the per-grouper codes are combined arithmetically, every path to return restores the "
+                      "missing-label code under a mask computed from the input codes. pandas.cut edge semantics and shapes are not decided.",
+        "explanation": "R-SENTINEL on _ravel_factorized",
+    },
+    "C08": {
+        "rules": [M.rule_sentinel_offset],
+        "technique": "CFG must-pass-through of a masked sentinel restore",
+        "level_text": "Static, all-paths: after per-slice offsetting of codes, every path to return restores the missing-label code under a "
+                      "mask computed from the input codes. Offsets, transposes and per-slice values are not decided.",
+        "explanation": "R-SENTINEL on offset_labels",
+    },
+    "C10": {
+        "rules": [M.rule_scantable, rule_stable],
+        "technique": "registry constant-evaluation + scan table; stable-sort sites",
+        "level_text": "Static: the three scan blueprints are consistent (operator identity, carried reduction, in-block scan), bfill is the "
+                      "mirror image of ffill, and the group sort feeding ffill is stable. Scan values across chunkings are not decided.",
+        "explanation": "R-SCANTABLE, R-STABLE",
+    },
+    "C11": {
+        "rules": [M.rule_dtypetable, M.rule_finalcast],
+        "technique": "dtype convention table; CFG must-pass-through of the final cast; access-path agreement of announced meta",
+        "level_text": "Static, all-paths: blueprint dtype declarations follow the NumPy convention table, every path of the finalizer casts "
+                      "to the announced slot, the engine dispatch result is cast per kernel, and the lazy meta is built from the same slot. "
+                      "Promotion arithmetic and announced-vs-computed chunk sizes are not decided.",
+        "explanation": "R-DTYPETABLE, R-FINALCAST",
+    },
+    "C16": {
+        "rules": [M.rule_coindex],
+        "technique": "syntactic co-indexing of values and labels in one basic block",
+        "level_text": "Static: whenever groupby_reduce re-indexes the result along the group axis it re-indexes the labels with the same "
+                      "index in the same block, and vice versa. Which order results is not decided.",
+        "explanation": "R-COINDEX",
+    },
+    "C18": {
+        "rules": [M.rule_blockonly],
+        "technique": "registry check; CFG dominance of a refusal over graph construction; three-site agreement",
+        "level_text": "Static, all-paths: order statistics declare no block/combine decomposition, a refusal dominates graph construction "
+                      "unless the plan is blockwise, and the three sites that special-case the extra leading axis agree with the registry. "
+                      "Quantile numerics are not decided.",
+        "explanation": "R-BLOCKONLY",
+    },
+    "C20": {
+        "rules": [M.rule_collide, M.rule_castorder],
+        "technique": "sentinel-collision pattern on NaN substitutes; dtype plumbing of the engine wrappers; widening table",
+        "level_text": "Static: no all-NaN detector compares a result with its own NaN substitute unless conjoined with a valid-member "
+                      "count; the reduceat calls and output buffer use the requested dtype; numbagg's input casts only widen and the "
+                      "requested dtype applies to the result. Overflow and cancellation numerics are not decided.",
+        "explanation": "R-COLLIDE, R-CASTORDER",
+    },
     "C03": {
         "rules": [rule_keys, rule_order, rule_global, rule_algebra],
         "technique": "def-use closure of graph keys over enclosing loops; taint (unordered source -> block selection) with sanitizers; "
@@ -95,4 +165,4 @@ NOT_APPLICABLE = {
 
 # properties whose rules are designed (DESIGN.md §3) but not built yet: not claimed until they are
 PENDING = {p: "static rules designed in DESIGN.md but not built yet in this revision; not claimed"
-           for p in ["C02", "C06", "C07", "C08", "C10", "C11", "C12", "C16", "C18", "C20"]}
+           for p in ["C12"]}
